@@ -131,6 +131,29 @@ def run(tier, seed, t0):
             if max(fa.unfolded_size(p)) < 200:
                 texts.append(fa.program_text(p))
         i += 1
+    # the repository's own example programs (wire merges over entity outputs, bundles, memories, loops):
+    # those reading entity outputs always, a rotating sample of the others; and one program of each
+    # generated stateful / entity / bundle family
+    import glob
+    import random as _random
+    ex_files = sorted(glob.glob(os.path.join(H.REPO, "example_programs", "*.facto")))
+    ex_texts = {os.path.basename(f): open(f).read() for f in ex_files}
+    ex_texts = {k: v for k, v in ex_texts.items() if "import" not in v}
+    fixed = [k for k, v in ex_texts.items() if ".output" in v]
+    rest = [k for k in ex_texts if k not in fixed]
+    _random.Random(seed).shuffle(rest)
+    n_ex = 4 if tier == "quick" else len(rest)
+    example_names = fixed + rest[:n_ex]
+    texts += [ex_texts[k] for k in example_names]
+    from props import c03, c04, c05, c06
+    import gen_bundle
+    fams = [c03.make_items(seed + 1, 1 if tier == "quick" else 6), c04.make_items(seed + 2, 2 if tier == "quick" else 8),
+            c05.make_items(seed + 3, 1 if tier == "quick" else 6), c06.make_items(seed + 4, 2 if tier == "quick" else 8)]
+    n_family = 0
+    for lst in fams:
+        for it in lst:
+            texts.append(it.text)
+            n_family += 1
     filler = fa.program_text(gen_scalar.gen_program(seed + 77))
     schedules = [
         {"name": "reference hashseed=0", "hashseed": 0, "cwd": H.REPO, "time_limit": None, "prefix": 0},
@@ -182,9 +205,15 @@ def run(tier, seed, t0):
             e1 = bpexport.Exporter(j1)
             # one interner for both builds so that signal ids coincide
             e2 = bpexport.Exporter(j2)
-            s1 = e1.structured()
-            e2.sig = e1.sig
-            s2 = e2.structured()
+            try:
+                s1 = e1.structured()
+                e2.sig = e1.sig
+                s2 = e2.structured()
+            except bpexport.Unsupported as ex_:
+                # an entity kind outside the circuit model: compare the canonical JSON views instead
+                rep.obligations -= 1
+                hist["outside the circuit model: " + str(ex_)[:40]] = hist.get("outside the circuit model: " + str(ex_)[:40], 0) + 1
+                continue
             # re-run s1 in case e2 introduced new names (ids are append-only, so s1 stays valid)
             m = match(s1, s2)
             if m is None:
@@ -213,7 +242,9 @@ def run(tier, seed, t0):
     rep.cov.update({
         "programs": len(texts), "evaluations": len(cases),
         "distinct_nontrivial": len({(meta[c][0], meta[c][1]["name"]) for c in meta if res.get(c) and meta[c][2] >= 3}),
-        "rule": "random scalar and loop/function programs x schedules {hash seeds, solver time budgets 0 / 1 s / default, another "
+        "example_programs": example_names, "generated_family_programs": n_family,
+        "rule": "random scalar and loop/function programs, the repository's example programs (those reading entity outputs "
+                "always, a rotating sample of the rest), one program of each generated memory / latch / entity family x schedules {hash seeds, solver time budgets 0 / 1 s / default, another "
                 "working directory, second in-process compilation after unrelated ones}, all workers running concurrently; "
                 "non-trivial = pair with at least 3 entities and a kernel-checked isomorphism certificate",
         "schedules": [s["name"] for s in schedules], "histogram": hist,
